@@ -11,37 +11,38 @@ Open Scope N_scope.
 
 (* the configured schedule: node 0 (first election timeout 0 ms) starts the election, every message is
    delivered (oldest first), then the client appends the entries one after the other at the leader *)
-Fixpoint healthy_run (c : cluster) (data : list N) : cluster :=
+Fixpoint healthy_run (rv : raftrev) (c : cluster) (data : list N) : cluster :=
   match data with
   | [] => c
-  | d :: rest => healthy_run (drain 200 (step c (ClientAppend 0 d))) rest
+  | d :: rest => healthy_run rv (drain rv 200 (step rv c (ClientAppend 0 d))) rest
   end.
 
-Definition healthy (size : N) (data : list N) : cluster :=
-  healthy_run (drain 200 (step (init_default size) (Tick 0 0 []))) data.
+Definition healthy (rv : raftrev) (size : N) (data : list N) : cluster :=
+  healthy_run rv (drain rv 200 (step rv (init_default size) (Tick 0 0 []))) data.
 
-Lemma C30_fifo_3 :
-  let c := healthy 3 [101; 102] in
+(* every revision of the election code (Raft.v: raftrev; before / after each of the two repairs) *)
+Lemma C30_fifo_3 : forall rv,
+  let c := healthy rv 3 [101; 102] in
   c_net c = [] /\ all_synced_b c [101; 102] = true /\ election_safety_b (c_hist c) = true.
-Proof. vm_compute. auto. Qed.
+Proof. intros [[|] [|]]; vm_compute; auto. Qed.
 
-Lemma C30_fifo_5 :
-  let c := healthy 5 [101; 102] in
+Lemma C30_fifo_5 : forall rv,
+  let c := healthy rv 5 [101; 102] in
   c_net c = [] /\ all_synced_b c [101; 102] = true /\ election_safety_b (c_hist c) = true.
-Proof. vm_compute. auto. Qed.
+Proof. intros [[|] [|]]; vm_compute; auto. Qed.
 
 (* ================================================================== 2. all fault-free interleavings *)
 
 (* A fault-free run: scripted actions (timer expirations, client appends) happen when no message is in flight
    (message latency << timeouts); while messages are in flight ANY of them may be delivered next (no loss, no
    duplication, arbitrary order); `elapsed = 0`: no timer has expired at a receiver. *)
-Inductive dl_run : cluster -> cluster -> Prop :=
-| dl_done : forall c, c_net c = [] -> dl_run c c
-| dl_step : forall c k c', (k < length (c_net c))%nat -> dl_run (step c (Deliver k 0)) c' -> dl_run c c'.
+Inductive dl_run (rv : raftrev) : cluster -> cluster -> Prop :=
+| dl_done : forall c, c_net c = [] -> dl_run rv c c
+| dl_step : forall c k c', (k < length (c_net c))%nat -> dl_run rv (step rv c (Deliver k 0)) c' -> dl_run rv c c'.
 
-Inductive ff_run : list event -> cluster -> cluster -> Prop :=
-| ff_nil : forall c, ff_run [] c c
-| ff_act : forall a rest c c1 c', dl_run (step c a) c1 -> ff_run rest c1 c' -> ff_run (a :: rest) c c'.
+Inductive ff_run (rv : raftrev) : list event -> cluster -> cluster -> Prop :=
+| ff_nil : forall c, ff_run rv [] c c
+| ff_act : forall a rest c c1 c', dl_run rv (step rv c a) c1 -> ff_run rv rest c1 c' -> ff_run rv (a :: rest) c c'.
 
 (* ------------------------------------------------------------------ decidable equality of (history-free) clusters *)
 
@@ -169,17 +170,17 @@ Qed.
 
 (* ------------------------------------------------------------------ the history never influences nodes or network *)
 
-Lemma step_strip : forall c e, strip (step c e) = strip (step (strip c) e).
+Lemma step_strip : forall rv c e, strip (step rv c e) = strip (step rv (strip c) e).
 Proof.
-  intros c e. destruct e as [i el due | k el | k | k | i d]; cbn [step].
+  intros rv c e. destruct e as [i el due | k el | k | k | i d]; cbn [step].
   - change (get_node (strip c) i) with (get_node c i).
     destruct (get_node c i) as [n|]; [|reflexivity]. destruct (process n el due). reflexivity.
   - change (c_net (strip c)) with (c_net c).
     destruct (nth_error (c_net c) k) as [[r|r s]|]; [| |reflexivity].
     + change (get_node (strip c) (q_to r)) with (get_node c (q_to r)).
-      destruct (get_node c (q_to r)) as [n|]; [|reflexivity]. destruct (handle_request n r el). reflexivity.
+      destruct (get_node c (q_to r)) as [n|]; [|reflexivity]. destruct (handle_request rv n r el). reflexivity.
     + change (get_node (strip c) (s_to s)) with (get_node c (s_to s)).
-      destruct (get_node c (s_to s)) as [n|]; [|reflexivity]. destruct (handle_response n r s). reflexivity.
+      destruct (get_node c (s_to s)) as [n|]; [|reflexivity]. destruct (handle_response rv n r s). reflexivity.
   - reflexivity.
   - change (c_net (strip c)) with (c_net c). destruct (nth_error (c_net c) k); reflexivity.
   - change (get_node (strip c) i) with (get_node c i).
@@ -219,14 +220,14 @@ Proof.
 Qed.
 
 (* all quiescent states reachable by deliveries (None: out of fuel) *)
-Fixpoint finals (fuel : nat) (c : cluster) : option (list cluster) :=
+Fixpoint finals (rv : raftrev) (fuel : nat) (c : cluster) : option (list cluster) :=
   match fuel with
   | O => None
   | S f =>
       match c_net c with
       | [] => Some [strip c]
       | _ => fold_left (fun acc k =>
-                          match acc, finals f (strip (step c (Deliver k 0))) with
+                          match acc, finals rv f (strip (step rv c (Deliver k 0))) with
                           | Some a, Some b => Some (union b a)
                           | _, _ => None
                           end)
@@ -253,10 +254,10 @@ Proof.
     + intros k0 [<-|Hk]; eauto.
 Qed.
 
-Lemma finals_sound : forall fuel c L,
-  finals fuel (strip c) = Some L -> forall c', dl_run c c' -> covers L c'.
+Lemma finals_sound : forall rv fuel c L,
+  finals rv fuel (strip c) = Some L -> forall c', dl_run rv c c' -> covers L c'.
 Proof.
-  induction fuel as [|f IH]; intros c L H c' R; cbn [finals] in H; [discriminate|].
+  intros rv. induction fuel as [|f IH]; intros c L H c' R; cbn [finals] in H; [discriminate|].
   change (c_net (strip c)) with (c_net c) in H.
   destruct R as [c Hn | c k c' Hk R].
   - rewrite Hn in H. inversion H. exists (strip (strip c)). split; cbn; auto.
@@ -268,16 +269,16 @@ Proof.
 Qed.
 
 (* one scripted action after the other, each followed by all interleavings of the deliveries *)
-Fixpoint phases (fuel : nat) (script : list event) (L : list cluster) : option (list cluster) :=
+Fixpoint phases (rv : raftrev) (fuel : nat) (script : list event) (L : list cluster) : option (list cluster) :=
   match script with
   | [] => Some L
   | a :: rest =>
       match fold_left (fun acc c =>
-                         match acc, finals fuel (strip (step c a)) with
+                         match acc, finals rv fuel (strip (step rv c a)) with
                          | Some x, Some b => Some (union b x)
                          | _, _ => None
                          end) L (Some []) with
-      | Some L' => phases fuel rest L'
+      | Some L' => phases rv fuel rest L'
       | None => None
       end
   end.
@@ -297,11 +298,11 @@ Proof.
     + intros c0 [<-|Hc]; auto. exists b. split; auto. intros x Hx. apply C1. apply covers_union; auto.
 Qed.
 
-Lemma phases_sound : forall fuel script L L',
-  phases fuel script L = Some L' ->
-  forall c c', covers L c -> ff_run script c c' -> covers L' c'.
+Lemma phases_sound : forall rv fuel script L L',
+  phases rv fuel script L = Some L' ->
+  forall c c', covers L c -> ff_run rv script c c' -> covers L' c'.
 Proof.
-  intros fuel. induction script as [|a rest IH]; intros L L' H c c' Hc R; cbn [phases] in H.
+  intros rv fuel. induction script as [|a rest IH]; intros L L' H c c' Hc R; cbn [phases] in H.
   - inversion H; subst. inversion R; subst. exact Hc.
   - inversion R as [|a0 rest0 c0 c1 c2 D R2]; subst.
     destruct (fold_left _ L (Some [])) as [L1|] eqn:F; [|discriminate].
@@ -309,26 +310,26 @@ Proof.
     destruct Hc as [y [Hy Ey]]. destruct (C2 _ Hy) as [b [Fb Cb]].
     eapply IH; [exact H| |exact R2]. apply Cb.
     (* the deliveries after action a, started from y, cover those started from c *)
-    assert (E : strip (step y a) = strip (step c a)) by (rewrite (step_strip y), (step_strip c), Ey; reflexivity).
-    assert (Fb' : finals fuel (strip (step c a)) = Some b) by (rewrite <- E; exact Fb).
+    assert (E : strip (step rv y a) = strip (step rv c a)) by (rewrite (step_strip rv y), (step_strip rv c), Ey; reflexivity).
+    assert (Fb' : finals rv fuel (strip (step rv c a)) = Some b) by (rewrite <- E; exact Fb).
     eapply finals_sound; eauto.
 Qed.
 
-Definition check (fuel : nat) (script : list event) (goal : cluster -> bool) (c : cluster) : bool :=
-  match phases fuel script [c] with
+Definition check (rv : raftrev) (fuel : nat) (script : list event) (goal : cluster -> bool) (c : cluster) : bool :=
+  match phases rv fuel script [c] with
   | Some L => forallb goal L
   | None => false
   end.
 
-Lemma check_sound : forall fuel script goal c,
+Lemma check_sound : forall rv fuel script goal c,
   (forall x, goal (strip x) = goal x) ->
-  check fuel script goal c = true ->
-  forall c', ff_run script c c' -> goal c' = true.
+  check rv fuel script goal c = true ->
+  forall c', ff_run rv script c c' -> goal c' = true.
 Proof.
-  intros fuel script goal c G H c' R. unfold check in H.
-  destruct (phases fuel script [c]) as [L|] eqn:P; [|discriminate].
+  intros rv fuel script goal c G H c' R. unfold check in H.
+  destruct (phases rv fuel script [c]) as [L|] eqn:P; [|discriminate].
   assert (Hc : covers [c] c) by (exists c; cbn; auto).
-  destruct (phases_sound _ _ _ _ P c c' Hc R) as [y [Hy Ey]].
+  destruct (phases_sound _ _ _ _ _ P c c' Hc R) as [y [Hy Ey]].
   rewrite forallb_forall in H. rewrite <- G, <- Ey, G. apply H; auto.
 Qed.
 
@@ -342,39 +343,40 @@ Proof. reflexivity. Qed.
 Definition script3 : list event :=
   [Tick 0 0 []; ClientAppend 0 101; ClientAppend 0 102; Tick 0 1001 [1; 2]].
 
-Lemma C30_check3 : check 100 script3 (fun c => all_synced_b c [101; 102]) (init_default 3) = true.
-Proof. vm_compute. reflexivity. Qed.
+Lemma C30_check3 : forall rv, check rv 100 script3 (fun c => all_synced_b c [101; 102]) (init_default 3) = true.
+Proof. intros [[|] [|]]; vm_compute; reflexivity. Qed.
 
-Theorem C30_all_interleavings_3 : forall c',
-  ff_run script3 (init_default 3) c' -> all_synced_b c' [101; 102] = true.
+Theorem C30_all_interleavings_3 : forall rv c',
+  ff_run rv script3 (init_default 3) c' -> all_synced_b c' [101; 102] = true.
 Proof.
-  intros c' R.
-  apply (check_sound 100 script3 (fun c => all_synced_b c [101; 102]) (init_default 3));
+  intros rv c' R.
+  apply (check_sound rv 100 script3 (fun c => all_synced_b c [101; 102]) (init_default 3));
     [intros x; apply all_synced_strip | apply C30_check3 | exact R].
 Qed.
 
 (* the relation is inhabited: the FIFO run is one of the runs covered *)
-Lemma dl_run_drain : forall fuel c, c_net (drain fuel c) = [] -> dl_run c (drain fuel c).
+Lemma dl_run_drain : forall rv fuel c, c_net (drain rv fuel c) = [] -> dl_run rv c (drain rv fuel c).
 Proof.
-  induction fuel as [|f IH]; intros c H; cbn [drain] in *.
+  intros rv. induction fuel as [|f IH]; intros c H; cbn [drain] in *.
   - apply dl_done; auto.
   - destruct (c_net c) as [|m net] eqn:E.
     + apply dl_done; auto.
-    + eapply (dl_step c 0%nat); [rewrite E; cbn; lia|]. apply IH; auto.
+    + eapply (dl_step rv c 0%nat); [rewrite E; cbn; lia|]. apply IH; auto.
 Qed.
 
-Lemma C30_nonvacuous : exists c', ff_run script3 (init_default 3) c' /\ all_synced_b c' [101; 102] = true.
+Lemma C30_nonvacuous : forall rv, exists c', ff_run rv script3 (init_default 3) c' /\ all_synced_b c' [101; 102] = true.
 Proof.
-  set (c1 := drain 200 (step (init_default 3) (Tick 0 0 []))).
-  set (c2 := drain 200 (step c1 (ClientAppend 0 101))).
-  set (c3 := drain 200 (step c2 (ClientAppend 0 102))).
-  set (c4 := drain 200 (step c3 (Tick 0 1001 [1; 2]))).
-  assert (R : ff_run script3 (init_default 3) c4).
+  intros rv.
+  set (c1 := drain rv 200 (step rv (init_default 3) (Tick 0 0 []))).
+  set (c2 := drain rv 200 (step rv c1 (ClientAppend 0 101))).
+  set (c3 := drain rv 200 (step rv c2 (ClientAppend 0 102))).
+  set (c4 := drain rv 200 (step rv c3 (Tick 0 1001 [1; 2]))).
+  assert (R : ff_run rv script3 (init_default 3) c4).
   { unfold script3.
-    apply (ff_act _ _ _ c1); [apply (dl_run_drain 200); vm_compute; reflexivity|].
-    apply (ff_act _ _ _ c2); [apply (dl_run_drain 200); vm_compute; reflexivity|].
-    apply (ff_act _ _ _ c3); [apply (dl_run_drain 200); vm_compute; reflexivity|].
-    apply (ff_act _ _ _ c4); [apply (dl_run_drain 200); vm_compute; reflexivity|].
+    apply (ff_act rv _ _ _ c1); [apply (dl_run_drain rv 200); destruct rv as [[|] [|]]; vm_compute; reflexivity|].
+    apply (ff_act rv _ _ _ c2); [apply (dl_run_drain rv 200); destruct rv as [[|] [|]]; vm_compute; reflexivity|].
+    apply (ff_act rv _ _ _ c3); [apply (dl_run_drain rv 200); destruct rv as [[|] [|]]; vm_compute; reflexivity|].
+    apply (ff_act rv _ _ _ c4); [apply (dl_run_drain rv 200); destruct rv as [[|] [|]]; vm_compute; reflexivity|].
     apply ff_nil. }
-  exists c4. split; [exact R | apply C30_all_interleavings_3; exact R].
+  exists c4. split; [exact R | apply (C30_all_interleavings_3 rv); exact R].
 Qed.
